@@ -595,9 +595,26 @@ impl<'a, W: Write> YamlSerializer<'a, W> {
     /// Allocate (or get existing) anchor id for a pointer identity.
     /// Returns `(id, is_new)`.
     #[inline]
-    fn alloc_anchor_for(&mut self, ptr: usize) -> (AnchorId, bool) {
+    fn alloc_anchor_for(&mut self, ptr: usize) -> Result<(AnchorId, bool)> {
+        // A wrapper directly inside another wrapper (e.g. `RcAnchor<ArcAnchor<T>>`) is the same
+        // YAML node as the outer one, and a node carries a single anchor. While the outer
+        // wrapper's anchor is still pending, the inner pointer is therefore defined by that
+        // same anchor: both pointers share one id.
+        if let Some(outer) = self.pending_anchor_id {
+            if self.anchors.contains_key(&ptr) {
+                // The node would have to be an alias (for the inner pointer) and carry an anchor
+                // (for the outer one) at the same time.
+                return Err(Error::custom(
+                    "an anchor wrapper directly inside another anchor wrapper refers to a value \
+                     that is already anchored elsewhere; a YAML node cannot be an alias and \
+                     define an anchor at the same time",
+                ));
+            }
+            self.anchors.insert(ptr, outer);
+            return Ok((outer, true));
+        }
         match self.anchors.entry(ptr) {
-            std::collections::hash_map::Entry::Occupied(e) => (*e.get(), false),
+            std::collections::hash_map::Entry::Occupied(e) => Ok((*e.get(), false)),
             std::collections::hash_map::Entry::Vacant(v) => {
                 let id = self.next_anchor_id;
                 self.next_anchor_id = self.next_anchor_id.saturating_add(1);
@@ -608,7 +625,7 @@ impl<'a, W: Write> YamlSerializer<'a, W> {
                         .push(name);
                 }
                 v.insert(id);
-                (id, true)
+                Ok((id, true))
             }
         }
     }
@@ -811,6 +828,33 @@ impl<'a, W: Write> YamlSerializer<'a, W> {
             self.newline()?;
         }
         Ok(())
+    }
+
+    /// If an anchor is pending for an enum variant with data (`Variant: payload`), emit it before
+    /// the variant key: the anchor belongs to the one-entry mapping, not to the payload.
+    /// The anchor ends the current line; returns the depth at which the variant key must then be
+    /// written (`None` if no anchor was pending).
+    fn write_anchor_before_variant_key(&mut self) -> Result<Option<usize>> {
+        let Some(id) = self.pending_anchor_id.take() else {
+            return Ok(None);
+        };
+        let key_depth = if self.pending_space_after_colon {
+            // `key: &name` — the variant mapping goes one level under the parent mapping.
+            self.pending_space_after_colon = false;
+            self.out.write_char(' ')?;
+            self.current_map_depth.unwrap_or(self.depth) + 1
+        } else if self.at_line_start {
+            // top level (or start of a line): `&name` on a line of its own, key below it.
+            self.write_indent(self.depth)?;
+            self.depth
+        } else {
+            // `- &name` — the variant mapping goes one level under the dash.
+            self.after_dash_depth.map_or(self.depth, |d| d + 1)
+        };
+        self.out.write_char('&')?;
+        self.write_anchor_name(id)?;
+        self.newline()?;
+        Ok(Some(key_depth))
     }
 
     /// Emit an alias `*name`. Adds a newline in block style.
@@ -1229,6 +1273,7 @@ impl<'a, 'b, W: Write> Serializer for &'a mut YamlSerializer<'b, W> {
 
     fn serialize_none(self) -> Result<()> {
         self.write_space_if_pending()?;
+        self.write_scalar_prefix_if_anchor()?;
         self.last_value_was_block = false;
         if self.at_line_start {
             self.write_indent(self.depth)?;
@@ -1244,6 +1289,7 @@ impl<'a, 'b, W: Write> Serializer for &'a mut YamlSerializer<'b, W> {
 
     fn serialize_unit(self) -> Result<()> {
         self.write_space_if_pending()?;
+        self.write_scalar_prefix_if_anchor()?;
         self.last_value_was_block = false;
         if self.at_line_start {
             self.write_indent(self.depth)?;
@@ -1334,10 +1380,14 @@ impl<'a, 'b, W: Write> Serializer for &'a mut YamlSerializer<'b, W> {
         // Emit the variant mapping on the next line indented one level. Also, do not insert
         // a space after the colon when the value may itself be a mapping; instead, defer
         // space insertion to the value serializer via pending_space_after_colon.
-        if self.pending_space_after_colon {
+        let was_map_value = self.pending_space_after_colon;
+        let anchored_key_depth = self.write_anchor_before_variant_key()?;
+        if was_map_value {
             // consume the pending space request and start a new line
             self.pending_space_after_colon = false;
-            self.newline()?;
+            if !self.at_line_start {
+                self.newline()?;
+            }
             // When used as a mapping value, indent relative to the parent mapping's base,
             // not the serializer's current depth (which may still be the outer level).
             let base = self.current_map_depth.unwrap_or(self.depth);
@@ -1360,7 +1410,7 @@ impl<'a, 'b, W: Write> Serializer for &'a mut YamlSerializer<'b, W> {
         }
         // Otherwise (top-level or sequence context).
         if self.at_line_start {
-            self.write_indent(self.depth)?;
+            self.write_indent(anchored_key_depth.unwrap_or(self.depth))?;
         }
         self.write_plain_or_quoted(variant)?;
         // Write ':' without a space and defer spacing/newline to the value serializer.
@@ -1513,13 +1563,14 @@ impl<'a, 'b, W: Write> Serializer for &'a mut YamlSerializer<'b, W> {
         variant: &'static str,
         _len: usize,
     ) -> Result<Self::SerializeTupleVariant> {
+        let anchored_key_depth = self.write_anchor_before_variant_key()?;
         if self.at_line_start {
-            self.write_indent(self.depth)?;
+            self.write_indent(anchored_key_depth.unwrap_or(self.depth))?;
         }
         self.write_plain_or_quoted(variant)?;
         self.out.write_str(":\n")?;
         self.at_line_start = true;
-        let depth_next = self.depth + 1;
+        let depth_next = anchored_key_depth.unwrap_or(self.depth) + 1;
         Ok(TupleVariantSer {
             ser: self,
             depth: depth_next,
@@ -1645,10 +1696,14 @@ impl<'a, 'b, W: Write> Serializer for &'a mut YamlSerializer<'b, W> {
         // on the same line (e.g., "key: Variant:"). Move the variant mapping to the next line
         // indented under the parent mapping's base depth.
         let _was_inline_value = !self.at_line_start;
-        if self.pending_space_after_colon {
+        let was_map_value = self.pending_space_after_colon;
+        let anchored_key_depth = self.write_anchor_before_variant_key()?;
+        if was_map_value {
             // Value position after a map key: start the variant mapping on the next line.
             self.pending_space_after_colon = false;
-            self.newline()?;
+            if !self.at_line_start {
+                self.newline()?;
+            }
             // Indent the variant name one level under the parent mapping.
             let base = self.current_map_depth.unwrap_or(self.depth) + 1;
             self.write_indent(base)?;
@@ -1664,13 +1719,13 @@ impl<'a, 'b, W: Write> Serializer for &'a mut YamlSerializer<'b, W> {
         }
         // Otherwise (top-level or sequence context), emit the variant name at current depth.
         if self.at_line_start {
-            self.write_indent(self.depth)?;
+            self.write_indent(anchored_key_depth.unwrap_or(self.depth))?;
         }
         self.write_plain_or_quoted(variant)?;
         self.out.write_str(":\n")?;
         self.at_line_start = true;
         // Default indentation for fields under a plain variant line.
-        let mut depth_next = self.depth + 1;
+        let mut depth_next = anchored_key_depth.unwrap_or(self.depth) + 1;
         // If this variant follows a list dash, indent two levels under the dash (one for the element, one for the mapping).
         if let Some(d) = self.after_dash_depth.take() {
             depth_next = d + 2;
@@ -1920,7 +1975,7 @@ impl<'a, 'b, W: Write> SerializeTupleStruct for TupleSer<'a, 'b, W> {
                         let mut cap = UsizeCapture::default();
                         value.serialize(&mut cap)?;
                         let ptr = cap.finish()?;
-                        let (id, fresh) = self.ser.alloc_anchor_for(ptr);
+                        let (id, fresh) = self.ser.alloc_anchor_for(ptr)?;
                         if fresh {
                             self.ser.pending_anchor_id = Some(id); // define before value
                             self.strong_alias_id = None;
@@ -1956,6 +2011,8 @@ impl<'a, 'b, W: Write> SerializeTupleStruct for TupleSer<'a, 'b, W> {
                             // present == false: emit null and skip field #3.
                             // As a mapping value, the space after `key:` is still owed.
                             self.ser.write_space_if_pending()?;
+                            // Directly inside another wrapper, that wrapper's anchor goes on this node.
+                            self.ser.write_scalar_prefix_if_anchor()?;
                             if self.ser.at_line_start {
                                 self.ser.write_indent(self.ser.depth)?;
                             }
@@ -1965,7 +2022,7 @@ impl<'a, 'b, W: Write> SerializeTupleStruct for TupleSer<'a, 'b, W> {
                             self.skip_third = true;
                         } else {
                             let ptr = self.depth_for_normal;
-                            let (id, fresh) = self.ser.alloc_anchor_for(ptr);
+                            let (id, fresh) = self.ser.alloc_anchor_for(ptr)?;
                             if fresh {
                                 self.ser.pending_anchor_id = Some(id); // define before value
                                 self.weak_alias_id = None;
